@@ -198,6 +198,9 @@ func genC06Strlen(r *plan.Rng) *plan.Plan {
 		{"g20 := format(\"%c%c%c\", chr, chr, chr)", "g20b := format(\"%U\", chr)", "g20c := format(\"%q\", chr)", "g20d := format(\"%s\", byt)", "g20e := format(\"%e|%g\", fl, fl)", "g20f := format(\"%+d|%t|%v\", n, true, undefined)"},
 		{"g21 := format(\"%[2]*[1]d\", n, R * 6 + 1)", "g21b := format(\"%.*f\", R, fl)", "g21c := format(\"%-*d\", R * 6 + 1, n)"},
 		{"g22 := format(\"%v\", [str, [str, byt], {k: str}])", "g22b := format(\"%s\", error(str + str))", "g22c := format(\"%d\", [n, n, n])"},
+		{"g23 := \"\"", "for i := 0; i < R * 2 + 1; i++ {", "	g23 += char(55296 + i)", "}"},
+		{"g24 := str[0:R % 6]", "for i := 0; i < R + 2; i++ {", "	g24 += 'é'", "	g24 = g24 + char(1114112 + i)", "	g24 += char(-1 - i)", "}"},
+		{"g25 := \"abcdef\" + \"gh\"[0:R % 3]", "g25b := g25 + char(56000)", "g25c := g25 + 'z'", "g25d := g25 + '€'", "g25e := char(57343) + g25"},
 		{"g14 := string(n * 1000000) + string(fl) + string(true) + string(undefined)", "g14b := format(\"%t|%c|%U\", true, chr, chr)"},
 	}
 	n := r.Range(1, 3)
